@@ -69,13 +69,20 @@ def harness(E):
         elif act == 2:
             # clear the first index; the second one is replaced by a freshly created index with the same rules
             E.reach("cleared")
-            E.call("clear", tw.a.clear, RULES["domain"], {}, _allowed=())
+            # the rules in force are re-supplied to the clear request; the twin is a freshly created index holding them
+            rules = h.current_rules()
+            anchors = [(lru, rn) for lru, rn in ref.rules.items()]
+            known = dict((id(lru), ref.known.get(lru)) for lru, rn in anchors)
+            E.call("clear", tw.a.clear, RULES["domain"], dict(rules), _allowed=())
             tw.b.close()
             fb = E.fresh_folder("b%d" % i)
-            tw.__dict__["b"] = E.Traph(folder=fb, default_webentity_creation_rule=RULES["domain"], webentity_creation_rules={})
+            tw.__dict__["b"] = E.Traph(folder=fb, default_webentity_creation_rule=RULES["domain"], webentity_creation_rules=dict(rules))
             fresh = Ref()
             fresh.default_rule = "domain"
             ref.__dict__.update(fresh.__dict__)
+            for lru, rn in anchors:
+                ref.name(known[id(lru)])
+                ref.rules.set(lru, rn)
         if act != 0 or i == P["n"] - 1:
             read_battery(E, tw, pool)
     sizes_ok(E, tw.a)
